@@ -670,6 +670,12 @@ impl Ctx16 {
     /// Oracle 3 for a Load result. `pristine`: the archive is acknowledged and undamaged and no
     /// fault fired. `names_trusted`: entry names cannot have been altered (no bit flips).
     fn judge_load(&self, r: &Outcome<HashMap<String, Gcv>>, pristine: bool, names_trusted: bool, rep: &mut Report, how: &str) -> bool {
+        self.judge_load_c(r, pristine, names_trusted, false, rep, how)
+    }
+
+    /// `complete_if_ok`: the archive on disk is intact, so a Load that reports success must return every label.
+    #[allow(clippy::too_many_arguments)]
+    fn judge_load_c(&self, r: &Outcome<HashMap<String, Gcv>>, pristine: bool, names_trusted: bool, complete_if_ok: bool, rep: &mut Report, how: &str) -> bool {
         match r {
             Outcome::Ok(m) => {
                 for (l, s) in m {
@@ -690,6 +696,14 @@ impl Ctx16 {
                 }
                 if pristine && m.len() != self.inmem.len() {
                     rep.violate("clean_reload_differs", format!("{how}: {} labels reloaded, {} written", m.len(), self.inmem.len()));
+                    return false;
+                }
+                if complete_if_ok && m.len() != self.inmem.len() {
+                    // the archive itself is intact; the Load was disturbed by I/O faults and still
+                    // reported success, so it must have returned everything ("acknowledged => correct")
+                    let mut missing: Vec<&String> = self.inmem.keys().filter(|l| !m.contains_key(*l)).collect();
+                    missing.sort();
+                    rep.violate("partial_reload_reported_as_success", format!("{how}: Load returned Ok without the labels {missing:?} of an intact archive"));
                     return false;
                 }
                 m.len() == self.inmem.len()
@@ -920,7 +934,7 @@ pub fn check(world: &World, sc: &C16, sandbox: &str) -> Report {
                     rep.probe(if matches!(r, Outcome::Ok(_)) { "flipped_archive_loaded_ok" } else { "flipped_archive_rejected" }, 1);
                     false
                 } else {
-                    cx.judge_load(&r, pristine, true, &mut rep, &how)
+                    cx.judge_load_c(&r, pristine, true, disk == Disk::Good, &mut rep, &how)
                 };
                 loaded = if complete { r.ok().cloned() } else { None };
             }
@@ -1058,7 +1072,7 @@ pub fn check(world: &World, sc: &C16, sandbox: &str) -> Report {
                     for (n, c) in &fired {
                         rep.probe(n, *c);
                     }
-                    cx.judge_load(&r, fired.is_empty(), true, &mut rep, &format!("op {oi} sweep: Load[{plan}]"));
+                    cx.judge_load_c(&r, fired.is_empty(), true, true, &mut rep, &format!("op {oi} sweep: Load[{plan}]"));
                     if rep.violation.is_some() {
                         rep.pinned = Some(pinned(sc, vec![Op::Save { plan: String::new(), pre: Pre::Absent, hash_seed: 5 }, Op::Load { plan: plan.clone(), hash_seed: 6 }]));
                         break;
